@@ -135,7 +135,7 @@ def oracle_multimodel(case):
     s3 = c11.load_case(case)
     out, infos = [], []
     for m in c11.model_numbers(case):
-        ds, info = evaluate(s3, m)
+        ds, info = evaluate(s3, int(str(m)))  # an equal number, not the very object the residues carry
         out += [D(d.sig, f"model {m}: {d.what}") for d in ds]
         infos.append(info)
     case["_info4"] = {k: (min if k == "min_margin" else sum)(i[k] for i in infos) if k != "skipped" else any(i[k] for i in infos)
@@ -209,6 +209,11 @@ def plan(tier, seed):
     specs += [{"kind": "steered", "files": files, "examples": ex, "seed": seed * 1000 + 400 + k} for k in range(n)]
     n, ex = (4, 40) if tier == "quick" else (8, 1500)
     specs += [{"kind": "crowd", "files": files, "examples": ex, "seed": seed * 1000 + 500 + k} for k in range(n)]
+    # structures of dozens to hundreds of bases pulled apart between two stacked residues to 5.5-5.99 A
+    n, ex = (4, 40) if tier == "quick" else (8, 1500)
+    specs += [{"kind": "pulled-apart", "files": corpus.SMALL[:8] + ["1ehz-assembly-1.cif", "4qln.cif"], "examples": ex, "seed": seed * 1000 + 700 + k} for k in range(n)]
+    n, ex = (4, 60) if tier == "quick" else (8, 1500)
+    specs += [{"kind": "columns", "files": files, "examples": ex, "seed": seed * 1000 + 750 + k} for k in range(n)]
     # a structure of ribosome size: translated, non-touching copies of a corpus structure as chains of one model (more
     # than 4096 candidate pairs within 6 A) - batching and block-wise processing inside the search act only here
     specs += [{"kind": "assembly", "files": ["6g90_1.cif"], "copies": 12 if tier == "quick" else 20}]
@@ -242,6 +247,12 @@ def run_shard(spec) -> ShardResult:
 
         run_hypothesis(PROP_ID, gen3d.st_crowd(files), oracle, seed=spec["seed"], max_examples=spec["examples"],
                        result=res, to_json=c03.to_json, classify=cl)
+    elif spec["kind"] == "columns":
+        run_hypothesis(PROP_ID, gen3d.st_columns(files), oracle, seed=spec["seed"], max_examples=spec["examples"],
+                       result=res, to_json=c03.to_json, classify=lambda c: (classify(c)[0], list(classify(c)[1]) + ["four-columns-with-a-gap-inside-6A"]))
+    elif spec["kind"] == "pulled-apart":
+        run_hypothesis(PROP_ID, gen3d.st_pulled_apart(files), oracle, seed=spec["seed"], max_examples=spec["examples"],
+                       result=res, to_json=c03.to_json, classify=lambda c: (classify(c)[0], list(classify(c)[1]) + ["pulled-apart-to-5.5-6A"]))
     elif spec["kind"] == "assembly":
         for f in files:
             case = {"kind": "assembly", "file": f, "copies": spec["copies"]}
